@@ -722,7 +722,9 @@ def check_view(run, exe, model, cases, scratch, fixflags="1 1"):
                     else:
                         toks.append("w,%d" % nt if who == "p" else "o")
             elif ev[0] == "pr":
-                toks += ["w,%d" % t["p"], "u,%d,%d" % (t["p"], 1 if ev[1] else 0)]
+                # the controller presents the writer's files to the reader under fixed names: for the reader a restart of
+                # the writer with a new output prefix is a restart under the same names (new names: direct mode)
+                toks += ["w,%d" % t["p"], "u,%d,0" % t["p"]]
                 first["p"] = True
             elif ev[0] == "rr":
                 toks += ["o", "r"]
